@@ -193,4 +193,62 @@ CLAIMED["C08"] = {
                  "three-hop fixture + implementation-side quiescence predicate",
 }
 
+CLAIMED["C20"] = {
+    "design_ref": "DESIGN.md §4 C20, notes/C20.md",
+    "text": "Proved on the Gallina model of remote gossip-v1 handling (ProcessRemoteAnnouncement, "
+            "handleChanAnnouncement/Update/NodeAnnouncement, validateFundingTransaction, netann validation, "
+            "graph.Builder AddEdge/UpdateEdge/AddNode staleness, reject/premature/rate-limit/ban caches), for all "
+            "oracles, states, messages and histories: a channel enters only with four valid signatures and an unspent "
+            "2-of-2 funding output of the stated bitcoin keys; a policy changes only by an update signed by the "
+            "direction's node of a known channel, strictly newer, with consistent fields; a node changes only by a newer "
+            "self-signed announcement of a node that has a channel; rejection or an unchanged graph implies nothing is "
+            "relayed; updates parked before their channel are fully re-validated on replay. Tie: the real "
+            "AuthenticatedGossiper with a real graph.Builder over a real graph DB (bbolt; sqlite on even seeds in "
+            "thorough) on really signed and corrupted messages, whole graph + verdicts + broadcast counts compared "
+            "after every step (vm_compute) with harness-recomputed btcec/chain oracle tables, plus an independent "
+            "authenticity predicate on the implementation trace.",
+    "note": "Signatures, digests, chain answers and the funding-script constructor are oracles; theorems are "
+            "implications over them with no hypothesis on them. Funding clause for AssumeChannelValid=false. Goroutine "
+            "structure, batching, timers exercised only. Block-height premature re-injection, local announcements, v2 "
+            "gossip out of scope; self-channels (NodeID1 == NodeID2) outside the tie. Trusted: Coq kernel, harness, "
+            "python predicate.",
+    "technique": "Coq proof (handler characterisation, replay induction, history invariant) + differential "
+                 "correspondence on the real gossiper + independent trace predicate",
+}
+CLAIMED["C15"] = {
+    "design_ref": "DESIGN.md §4 C15, notes/C15.md",
+    "text": "Proved in Coq for all event sequences on an executable model of the invoice registry (regular, hold, "
+            "zero-amount, MPP with payment address, blinded path, keysend incl. hold-keysend): every Settle resolution is "
+            "for an HTLC recorded settled on a settled invoice whose preimage hashes to the HTLC's payment hash, with "
+            "matching payment address, both CLTV margins at acceptance, and a fully paid set (common total >= value, "
+            "sum >= total); states only move forward; AmtPaid equals the sum of settled HTLCs; replays are answered from "
+            "the record when no just-in-time keysend pre-check applies (refuted with it: known finding C15-F1); no HTLC "
+            "is both settled and canceled. Tied on every run by a differential run of the real InvoiceRegistry on the KV "
+            "and sqlite stores (every resolution incl. hodl deliveries and LookupInvoice after every event), plus a "
+            "sha256-checking predicate on the implementation trace (covers AMP sets too).",
+    "note": "Partial for AMP (only rejections modelled; AMP sets by the trace predicate), the HTLC interceptor and "
+            "concurrent notifiers (serialised by the registry mutex, not exercised). Link invariant 'one payment hash "
+            "per circuit key' assumed. Trusted: Coq kernel, harness, python predicate.",
+    "technique": "Coq invariant proof over all event sequences + differential correspondence (KV + sqlite) + trace predicate",
+}
+CLAIMED["C11"] = {
+    "design_ref": "DESIGN.md §4 C11, notes/C11.md",
+    "text": "Noise_XK transport (brontide/noise.go), Coq theorems with symbolic crypto: the handshake completes with "
+            "matching send/recv keys when the initiator dials the responder's real static key, and is refused for any "
+            "other key, a bad version byte, or a modified act one/two (act three: harness only); any interleaving of "
+            "WriteMessage and partial Flush calls puts exactly the honest encoding on the wire and the peer reads the "
+            "same messages in order across any number of key rotations; (epoch, nonce) pairs are strictly increasing, "
+            "hence never reused; under an ideal AEAD the first read reaching any modified, truncated, reordered, replayed "
+            "or reflected ciphertext fails and every earlier read returns exactly what was sent. Tie: real Machine pairs "
+            "with seeded keys, scripted short-writing writers, >= 3 rotations each way, tampered pipes; per-op results, "
+            "plaintexts, Flush accounting and (epoch, nonce) counters compared with a tagging-AEAD instantiation "
+            "(vm_compute) + independent trace predicate; brontide.Conn by predicate only.",
+    "note": "Crypto is symbolic: functional/ideal AEAD, no_forgery (INT-CTXT), ECDH/HKDF injectivity are stated "
+            "hypotheses of the theorems that use them. C11_handshake_rejects_partial does not cover act-three "
+            "modifications. Reads after a failed read are not claimed (Machine is not poisoned; lnd disconnects). "
+            "Conn/Listener/deadlines exercised only. Trusted: Coq kernel, harness, python predicate.",
+    "technique": "Coq proofs over an executable model with symbolic crypto + differential correspondence against a "
+                 "tagging-AEAD instantiation + trace predicate",
+}
+
 NOT_CLAIMED = {}
